@@ -118,6 +118,16 @@ class TimerTable:
                 if extra:
                     ctx.fail(cons, self.g.loc(st[0]), f"the per-peer {t} override is only applied "
                              f"under {extra}", rule=rule)
+        peer_cls = self.model.cls("node.peer", "Peer")
+        for t in names:
+            cons = f"Peer.{t}:default"
+            ctx.inst(cons, rule=rule)
+            v = peer_cls.class_assigns.get(t)
+            val = self.model.try_fold(v, peer_cls.module, peer_cls, default="?") if v is not None else "?"
+            if val is not None:
+                ctx.fail(cons, peer_cls.loc(), f"Peer.{t} defaults to {val!r} instead of None: the "
+                         f"`peer.{t} or node.{t}` fall-back always takes the per-peer value and the "
+                         f"node-level {t} is ignored for every configured peer", rule=rule)
         cons = "_check_timers:peer-lookup"
         ctx.inst(cons, rule=rule)
         if self.peer_var is None or not A.call_name(self.peer_def).endswith("_find_connection_peer") \
